@@ -26,6 +26,7 @@ type Net struct {
 	start time.Time
 
 	mu       sync.Mutex
+	cond     *sync.Cond // signalled when a dial attempt starts or finishes
 	conns    []*Conn
 	dials    []*DialAttempt
 	plans    map[netip.Addr][]DialPlan // queue per remote; last one is sticky
@@ -35,11 +36,43 @@ type Net struct {
 // New creates a network; call it inside the bubble so that Since() is
 // relative to the bubble's clock.
 func New() *Net {
-	return &Net{
+	n := &Net{
 		start:   time.Now(),
 		plans:   map[netip.Addr][]DialPlan{},
 		defPlan: DialPlan{Kind: Refuse},
 	}
+	n.cond = sync.NewCond(&n.mu)
+	return n
+}
+
+// WaitDials blocks (durably: virtual time advances) until at least count
+// dial attempts have started, or limit of virtual time has passed.
+func (n *Net) WaitDials(count int, limit time.Duration) bool {
+	return n.waitFor(limit, func() bool { return len(n.dials) >= count })
+}
+
+// WaitDialDone blocks until the idx-th dial attempt (0-based) has finished.
+func (n *Net) WaitDialDone(idx int, limit time.Duration) bool {
+	return n.waitFor(limit, func() bool { return len(n.dials) > idx && n.dials[idx].Done })
+}
+
+func (n *Net) waitFor(limit time.Duration, pred func() bool) bool {
+	deadline := time.Now().Add(limit)
+	t := time.AfterFunc(limit, func() {
+		n.mu.Lock()
+		n.cond.Broadcast()
+		n.mu.Unlock()
+	})
+	defer t.Stop()
+	n.mu.Lock()
+	defer n.mu.Unlock()
+	for !pred() {
+		if !time.Now().Before(deadline) {
+			return false
+		}
+		n.cond.Wait()
+	}
+	return true
 }
 
 // NextSeq returns the next global logical sequence number.
@@ -460,6 +493,7 @@ func (n *Net) Dial(ctx context.Context, local, remote netip.Addr, port int) (net
 	}
 	a := &DialAttempt{Seq: n.NextSeq(), At: n.Since(), Local: local, Remote: remote, Port: port, Plan: plan, release: make(chan struct{})}
 	n.dials = append(n.dials, a)
+	n.cond.Broadcast()
 	n.mu.Unlock()
 
 	finish := func(c *Conn, err error) (net.Conn, error) {
@@ -467,6 +501,7 @@ func (n *Net) Dial(ctx context.Context, local, remote netip.Addr, port int) (net
 		defer n.mu.Unlock()
 		a.Done = true
 		a.DoneAt = n.Since()
+		n.cond.Broadcast()
 		if ctx.Err() != nil {
 			a.Cancelled = true
 			a.CancelAt = a.DoneAt
